@@ -315,6 +315,8 @@ def rule_g(ctx):
 
 
 def run(ctx):
+    from rules.shared_rules import every_processed_packet_is_counted
+    every_processed_packet_is_counted(ctx, 'd', 'every_processed_packet_is_counted')
     rule_a(ctx)
     rule_b(ctx)
     rule_c(ctx)
